@@ -60,6 +60,12 @@ func replay(sub string, raw json.RawMessage) ([]h.Failure, error) {
 			return nil, err
 		}
 		return checkPyFormat(c), nil
+	case "display":
+		var c displayCase
+		if err := json.Unmarshal(raw, &c); err != nil {
+			return nil, err
+		}
+		return checkDisplayForm(c), nil
 	case "format":
 		var c fmtCase
 		if err := json.Unmarshal(raw, &c); err != nil {
